@@ -520,6 +520,16 @@ class Builder:
         assert len(set(srcs)) == len(srcs)
         return self.cat(srcs, 1)
 
+    def dense_block(self, t, depth=None):
+        """DenseNet-style chain: each stage concatenates the running tensor with a new layer's output
+        (a concat of a concat of a concat ...)"""
+        for _ in range(depth or self.rng.choice([3, 3, 4])):
+            c = self.same_shape_conv(t, cout=self.rng.randint(1, 3))
+            c = self.maybe_bn_act(c, 0.2, 0.5)
+            t = self.cat([t, c], 1)
+        self.features.add('dense-chain')
+        return t
+
     def tcat_block(self, t):
         a = self.same_shape_conv(t)
         c = self.shapes[a][0]
@@ -657,7 +667,24 @@ def gen_program(rng, family=None, depth=None, opts=None):
     for _ in range(depth):
         r = rng.random()
         extra = ('x1',) if two_inputs else ()
-        if r < 0.40:
+        hazards = opts.get('hazards', ())
+        if r < 0.05 and hazards and b.shapes[t][0] <= 6:
+            # a chain of nested concats, then a consumer that needs a fixed width (where allowed)
+            t = b.dense_block(t)
+            kind = rng.choice(['excluded', 'dw', 'add', 'conv'])
+            if kind == 'excluded' and 'excluded-consumer' in hazards:
+                o = b.conv(t, excluded=True)
+                if o is not None:
+                    b.traits.add('excluded-consumer')
+                    t = o
+            elif kind == 'dw' and 'dw-after-cat' in hazards:
+                t = b.dw_block(t)
+                b.traits.add('dw-after-cat')
+            elif kind == 'add' and 'add-of-cat' in hazards:
+                t = b.residual_block(t)
+            else:
+                t = b.conv_block(t)
+        elif r < 0.40:
             s = rng.choice([1, 1, 1, 2])
             t = b.conv_block(t, s=s)
         elif r < 0.55:
